@@ -65,7 +65,15 @@ def is_url(
         return False
 
     if tld_aware:
-        parsed = safe_urlsplit(string)
+        # NOTE: what the pattern accepts might still not parse, nor have a host
+        try:
+            parsed = safe_urlsplit(string)
+        except ValueError:
+            return False
+
+        if not parsed.hostname:
+            return False
+
         if not has_valid_tld(parsed):
             return is_special_host(parsed.hostname)
 
